@@ -14,6 +14,8 @@
   * Python dicts are association lists with Python's ordering rules (`aset`: replace in place or
     append; `adel`: remove), so that the driver can print the very iteration order the real views
     show. Python sets (`__reverse[acckey]`) are duplicate-free lists (order unobservable).
+  * `Store._replace`'s "only update if really changed" test with Python's `==` (`veq`): a value
+    that compares equal to the stored one is *not* stored (`True == 1`!) — see finding C17/F1;
   * `OperatorIndexer.replace` (non-mapping result ↦ `{None: result}`), `OperatorIndexers.replace`
     (two loops: outcomes → discard on exception / replace on a non-None result / nothing on None;
     then every indexer *absent from the outcomes* discards), `OperatorIndexers.discard`.
@@ -100,17 +102,28 @@ def Index.discard (o : O) (keys : Option (List K)) (ix : Index K V O) : Option (
       | none => none
       | some r => if r.isEmpty then some { ix' with reverse := adel o ix'.reverse } else some ix'
 
+/-- `Store._replace(acckey, obj)`: "only update if really changed" — `veq` is Python's `==`:
+    `if acckey not in self.__items or self.__items[acckey] != obj: self.__items[acckey] = obj`.
+    So a new value that *compares equal* to the stored one (`True == 1`, `0.0 == False`) is dropped
+    and the stored one survives. -/
+def Store.replace (veq : V → V → Bool) (o : O) (v : V) (st : Store O V) : Store O V :=
+  match aget o st with
+  | some v' => if veq v' v then st else aset o v st
+  | none => aset o v st
+
 /-- The `for obj_key, obj_val in obj.items():` loop of `Index._replace` on (items, reverse-set). -/
-def replaceLoop (o : O) : List (K × V) → List (K × Store O V) × List K → List (K × Store O V) × List K
+def replaceLoop (veq : V → V → Bool) (o : O) :
+    List (K × V) → List (K × Store O V) × List K → List (K × Store O V) × List K
   | [], acc => acc
   | (k, v) :: rest, (items, rev) =>
     let st := match aget k items with | some st => st | none => []   -- `except KeyError: Store()`
-    replaceLoop o rest (aset k (aset o v st) items, sadd k rev)
+    replaceLoop veq o rest (aset k (Store.replace veq o v st) items, sadd k rev)
 
 /-- `Index._replace(acckey, obj)` -/
-def Index.replace (o : O) (m : List (K × V)) (ix : Index K V O) : Option (Index K V O) :=
+def Index.replace (veq : V → V → Bool) (o : O) (m : List (K × V)) (ix : Index K V O) :
+    Option (Index K V O) :=
   let rev0 := match aget o ix.reverse with | some r => r | none => []  -- `except KeyError: set()`
-  let r := replaceLoop o m (ix.items, rev0)
+  let r := replaceLoop veq o m (ix.items, rev0)
   let ix1 : Index K V O := { items := r.1, reverse := aset o r.2 ix.reverse }
   -- `self._discard(acckey, reverse - set(obj.keys()))`
   ix1.discard o (some (r.2.filter (fun k => !(m.map Prod.fst).contains k)))
@@ -249,17 +262,18 @@ def foldUpd (f : Id → Index (Option K) V O → Option (Index (Option K) V O)) 
     | some ix' => foldUpd f rest (upd ixs i ix')
 
 /-- the body of the first loop of `OperatorIndexers.replace` for one outcome. -/
-def applyOutcome (o : O) (out : Outcome K V) (ix : Index (Option K) V O) : Option (Index (Option K) V O) :=
+def applyOutcome (veq : V → V → Bool) (o : O) (out : Outcome K V) (ix : Index (Option K) V O) :
+    Option (Index (Option K) V O) :=
   if out.exception then ix.discard o none
   else match out.result with
-    | some m => ix.replace o m
+    | some m => ix.replace veq o m
     | none => some ix
 
 /-- body of `for id, outcome in outcomes.items():` -/
-def loop1 (o : O) (outs : List (Id × Outcome K V)) (i : Id) (ix : Index (Option K) V O) :
-    Option (Index (Option K) V O) :=
+def loop1 (veq : V → V → Bool) (o : O) (outs : List (Id × Outcome K V)) (i : Id)
+    (ix : Index (Option K) V O) : Option (Index (Option K) V O) :=
   match aget i outs with
-  | some out => applyOutcome o out ix
+  | some out => applyOutcome veq o out ix
   | none => some ix
 
 /-- body of `for id, indexer in self.items(): if id not in outcomes: indexer.discard(key)` -/
@@ -268,9 +282,9 @@ def loop2 (o : O) (outs : List (Id × Outcome K V)) (i : Id) (ix : Index (Option
   if (aget i outs).isSome then some ix else ix.discard o none
 
 /-- `OperatorIndexers.replace(body, outcomes)`; `ids` = the keys of `self` in order. -/
-def replaceAll (ids : List Id) (o : O) (outs : List (Id × Outcome K V))
+def replaceAll (veq : V → V → Bool) (ids : List Id) (o : O) (outs : List (Id × Outcome K V))
     (ixs : Id → Index (Option K) V O) : Option (Id → Index (Option K) V O) :=
-  match foldUpd (loop1 o outs) (outs.map Prod.fst) ixs with
+  match foldUpd (loop1 veq o outs) (outs.map Prod.fst) ixs with
   | none => none
   | some ixs1 => foldUpd (loop2 o outs) ids ixs1
 
@@ -283,8 +297,8 @@ def discardAll (ids : List Id) (o : O) (ixs : Id → Index (Option K) V O) :
 def hstateOf (mem : Id → Option HState) (i : Id) : HState := HState.ofOpt (mem i)
 
 /-- The indexing part of `process_resource_event` for one event. -/
-def step (cfg : List (Indexer Id Res L)) (defaultBackoff : Nat) (s : State Id K V O)
-    (e : Event Id Res L K V O) : Option (State Id K V O) :=
+def step (veq : V → V → Bool) (cfg : List (Indexer Id Res L)) (defaultBackoff : Nat)
+    (s : State Id K V O) (e : Event Id Res L K V O) : Option (State Id K V O) :=
   let ids := cfg.map (·.id)
   -- `if raw_type == 'DELETED': await memories.forget(raw_body)`
   let mem0 : O → Id → Option HState := if e.deleted then upd s.mem e.obj (fun _ => none) else s.mem
@@ -299,7 +313,7 @@ def step (cfg : List (Indexer Id Res L)) (defaultBackoff : Nat) (s : State Id K 
     let todo := sel.filter (fun c => (hstateOf (s.mem e.obj) c.id).awake e.t)
     let outs : List (Id × Outcome K V) :=
       todo.map (fun c => (c.id, execOne c defaultBackoff (hstateOf (s.mem e.obj) c.id) (e.script c.id)))
-    match replaceAll ids e.obj outs s.ixs with
+    match replaceAll veq ids e.obj outs s.ixs with
     | none => none
     | some ixs' =>
       -- `state.with_handlers(sel).with_outcomes(outcomes).without_successes()`
@@ -310,13 +324,13 @@ def step (cfg : List (Indexer Id Res L)) (defaultBackoff : Nat) (s : State Id K 
                   else s.mem e.obj i
       some ⟨ixs', upd s.mem e.obj memo⟩
 
-def run (cfg : List (Indexer Id Res L)) (defaultBackoff : Nat) :
+def run (veq : V → V → Bool) (cfg : List (Indexer Id Res L)) (defaultBackoff : Nat) :
     State Id K V O → List (Event Id Res L K V O) → Option (State Id K V O)
   | s, [] => some s
   | s, e :: es =>
-    match step cfg defaultBackoff s e with
+    match step veq cfg defaultBackoff s e with
     | none => none
-    | some s' => run cfg defaultBackoff s' es
+    | some s' => run veq cfg defaultBackoff s' es
 
 end Step
 
@@ -333,6 +347,18 @@ def lastval {κ ν : Type} [DecidableEq κ] (k : κ) : List (κ × ν) → Optio
     match lastval k r with
     | some x => some x
     | none => if k' = k then some v else none
+
+/-- What `Store._replace` keeps when asked to store `new` over `old`. -/
+def keepOld {ν : Type} (veq : ν → ν → Bool) (old : Option ν) (new : ν) : ν :=
+  match old with
+  | some v' => if veq v' new then v' else new
+  | none => new
+
+/-- The value under key `k` after merging the mapping `m` over a stored value `cur`
+    (pairs in order, each compared against what is stored at that moment). -/
+def foldVal {κ ν : Type} [DecidableEq κ] (veq : ν → ν → Bool) (k : κ) : List (κ × ν) → Option ν → Option ν
+  | [], cur => cur
+  | (k', v) :: r, cur => foldVal veq k r (if k' = k then some (keepOld veq cur v) else cur)
 
 /-- docs/indexing.rst as a table: what one call does to the object's entry in the index. -/
 inductive Rule (K V : Type) where
